@@ -6,6 +6,11 @@
 // updates of the block must turn the simulated consensus-engine validator set
 // into exactly the elected one; a second replica (other backend, validator
 // path) must reach the same state (determinism).
+//
+// Executor committees: in histories with a compute runtime (profile "runtime"
+// and about a third of the other histories) the CommitteeMonitor recomputes, from
+// the same pre-election state, which nodes are eligible for each role of the
+// runtime's executor committee and checks the committee the election wrote.
 package main
 
 import (
@@ -18,9 +23,10 @@ import (
 
 func runCase(c chainsim.Case, rep chainsim.Reporter, scratch string) {
 	em := &chainsim.ElectionMonitor{Rep: rep}
+	cm := &chainsim.CommitteeMonitor{Rep: rep}
 	cfg := chainsim.HistoryConfig{Seed: c.Seed, Profile: c.Profile, Blocks: c.Blocks, Paths: true,
 		Replicas: []chainsim.ReplicaConfig{{Name: "twin", Backend: "pathbadger"}}}
-	h, err := chainsim.NewHistory(cfg, em)
+	h, err := chainsim.NewHistory(cfg, em, cm)
 	if err != nil {
 		rep.Inconclusive("setup failed: " + err.Error())
 		return
@@ -36,6 +42,19 @@ func runCase(c chainsim.Case, rep chainsim.Reporter, scratch string) {
 	for k, n := range em.Excluded {
 		rep.Count("nodes_excluded."+k, int64(n))
 	}
+	if h.Sc.Runtime != nil {
+		rep.Count("histories_with_runtime", 1)
+		cm.Report(rep)
+		for k := range cm.Shapes {
+			rep.Distinct("committee_shapes", k)
+		}
+		for k := range cm.Constraints {
+			rep.Distinct("committee_constraints_exercised", k)
+		}
+		for k := range cm.Excluded {
+			rep.Distinct("committee_exclusion_reasons", k)
+		}
+	}
 	for _, p := range h.Panics {
 		rep.Inconclusive("history ended by a panic (see C10): " + p.Error())
 	}
@@ -48,8 +67,12 @@ func runCase(c chainsim.Case, rep chainsim.Reporter, scratch string) {
 	if em.Elections >= 4 && excl >= 2 {
 		rep.Nontrivial(fmt.Sprintf("%s/%d", c.Profile, c.Seed))
 	}
+	if cm.Committees >= 3 && len(cm.Excluded) >= 2 {
+		rep.Nontrivial(fmt.Sprintf("committees/%s/%d", c.Profile, c.Seed))
+	}
 	if c.Index < 2 {
-		rep.Sample(map[string]any{"params": h.Sc.P, "blocks": h.Height, "elections": em.Elections, "full_sets": em.FullSets, "excluded": em.Excluded})
+		rep.Sample(map[string]any{"params": h.Sc.P, "blocks": h.Height, "elections": em.Elections, "full_sets": em.FullSets, "excluded": em.Excluded,
+			"committees": cm.Committees, "elections_without_committee": cm.NoCommittee, "committee_excluded": cm.Excluded, "committee_shapes": cm.Shapes})
 	}
 	h.Close()
 	h.CloseBuilder()
@@ -60,9 +83,11 @@ func main() {
 		ID:    "C14",
 		Level: "exploration",
 		Rule: "each case is one generated block history with short epochs, entities with 1-2 validator nodes, equal and boundary stakes, nodes expiring / re-registering / frozen by evidence / unfrozen, entities slashed below their stake claims, new entities joining; at every election the oracle recomputes the eligible validator nodes (registered, not expired at the epoch, not frozen, validator role, entity escrow covers all its stake claims) from the state at elect.pre and checks the set written at elect.post: only eligible nodes, <= max, >= min, <= max per entity, voting power derived from and monotone in stake, no higher-stake eligible entity left out of a full set, nobody left out of a non-full set; " +
-			"the block's validator updates applied to the simulated consensus-engine set must give exactly the elected set; a second replica must agree; non-trivial = history with >=4 elections in which nodes were excluded for >=2 different reasons",
+			"the block's validator updates applied to the simulated consensus-engine set must give exactly the elected set; a second replica must agree; " +
+			"histories with a compute runtime (profile runtime and ~1/3 of the others: group size 2-3, backup size 0-2, max-nodes-per-entity / min-pool-size / validator-set constraints from a PRNG menu, nodes that are compute workers, compute-only nodes, nodes registered for a wrong or not yet active runtime version, nodes suspended or frozen by the runtime's liveness rule, expired nodes) additionally check every executor committee written at elect.post against eligibility recomputed from elect.pre (registered, not expired, not frozen, compute role, registered for the active deployment version, not suspended for the runtime, entity stake covers its claims, validator-set membership where demanded): members eligible, exactly group size workers and backup size backup workers or no committee, no node twice in a role, per-entity maximum, minimum pool size, committee valid for the election epoch; " +
+			"non-trivial = history with >=4 elections in which nodes were excluded for >=2 different reasons, or history with >=3 elected committees and >=2 exclusion reasons",
 		Cases: func(r *evid.Run) []chainsim.Case {
-			return chainsim.StdCases(r.Seed, r.Pick(128, 3200), r.Pick(60, 100), []string{"election", "election", "hostile", "registry"})
+			return chainsim.StdCases(r.Seed, r.Pick(128, 3200), r.Pick(60, 100), []string{"election", "runtime", "hostile", "registry", "election", "runtime", "runtime", "election"})
 		},
 		RunCase: runCase,
 		Floor:   10,
